@@ -31,7 +31,8 @@ GOENV = dict(os.environ, GOFLAGS="-mod=mod", GOPROXY="off", GOSUMDB="off", GOTOO
 ALLOWED_AXIOMS = {"propext", "Quot.sound", "Classical.choice"}
 FORBIDDEN = ["sorry", "admit", "native_decide", "bv_decide", "implemented_by", "unsafe ", "maxHeartbeats 0"]
 
-N_PROGRAMS = {"quick": 3000, "thorough": 120000}
+N_PROGRAMS = {"quick": 3000, "thorough": 120000}   # programs drawn from the property's own profile ...
+N_MIXED = {"quick": 1500, "thorough": 40000}       # ... followed by programs drawn from the union of all profiles (props.mixed_profile)
 N_TWINS = {"quick": 250, "thorough": 6000}
 # generated-source mode (declared functions: distinct constructor IDs, runtime names): batches x programs
 M2_PROPS = {"C01", "C13", "C14", "C18", "C19", "C20"}
@@ -257,14 +258,18 @@ def explore_one(pid, pair, prog, do_twins, rnd):
 
 
 def worker(args):
-    pid, seed0, lo, hi, ntw = args
+    pid, seed0, lo, hi, ntw, n_own = args
     pair = runner.Pair()
-    w = props.PROFILE.get(pid, {})
+    w_own = props.PROFILE.get(pid, {})
+    w_mixed = props.mixed_profile(pid)
     fails, ntriv, seen, skipped = [], 0, set(), 0
     dist = {}
     sample = None
     for k in range(lo, hi):
         seed = seed0 * 1000003 + k
+        w = w_own if k < n_own else w_mixed
+        if k >= n_own:
+            dist["mixed-profile-programs"] = dist.get("mixed-profile-programs", 0) + 1
         if pid in R_PROPS and k % 5 == 4:
             prog = gen.generate_reentrant(seed, w)
         else:
@@ -488,7 +493,8 @@ def main():
         m2fails, m2_stats = m2_phase(pid, tier, seed)
         fails.extend(m2fails)
 
-    n = N_PROGRAMS[tier]
+    n_own = N_PROGRAMS[tier]
+    n = n_own + N_MIXED[tier]
     ntw = N_TWINS[tier] if pid in ("C06", "C14", "C16", "C17") else 0
     jobs = min(16, os.cpu_count() or 4)
     chunk = max(10, n // (jobs * 6))
@@ -497,7 +503,7 @@ def main():
         hi = min(n, lo + chunk)
         # twins on the first programs of each chunk, proportionally
         tw = lo + max(0, (ntw * (hi - lo)) // n)
-        tasks.append((pid, seed, lo, hi, tw))
+        tasks.append((pid, seed, lo, hi, tw, n_own))
     with mp.Pool(jobs) as pool:
         results = pool.map(worker, tasks)
     evaluations = sum(r["n"] for r in results) + ncorpus
